@@ -25,31 +25,67 @@ def strip_generics(p):
     return out
 
 
+def _assoc_names(vm):
+    c = getattr(vm.mir, '_assoc_names', None)
+    if c is None or c[0] != len(vm.mir.src.impls):
+        d = {}
+        for im in vm.mir.src.impls.values():
+            for n in im.assoc: d.setdefault(n, set()).add(im.trait)
+        c = vm.mir._assoc_names = (len(vm.mir.src.impls), d)
+    return c[1]
+
+
 def normalize_assoc(vm, t):
-    """rewrite `<X as Trait>::Assoc` for crate traits with associated types"""
-    if ' as ' not in t: return t
+    """rewrite `<X as Trait>::Assoc` and the shorthand `X::Assoc` for crate traits with associated types"""
+    names = _assoc_names(vm)
     guard = 0
     while guard < 20:
         guard += 1
         changed = False
-        for m in re.finditer(r' as (\w+)>::(\w+)', t):
-            tr, name = m.group(1), m.group(2)
-            # find the '<' matching the '>' before '::'
-            close = m.end(1)
-            depth, i = 0, close
-            start = -1
-            while i >= 0:
-                c = t[i]
-                if c == '>' and t[i - 1] not in '-=': depth += 1
-                elif c == '<':
-                    depth -= 1
-                    if depth == 0: start = i; break
-                i -= 1
-            if start < 0: continue
-            selfty = t[start + 1:m.start()]
-            val = assoc_type(vm, selfty.strip(), tr, name)
-            if val is not None:
-                t = t[:start] + val + t[m.end():]; changed = True; break
+        if ' as ' in t:
+            for m in re.finditer(r' as (\w+)>::(\w+)', t):
+                tr, name = m.group(1), m.group(2)
+                if name not in names: continue
+                close = m.end(1)
+                depth, i = 0, close
+                start = -1
+                while i >= 0:
+                    c = t[i]
+                    if c == '>' and t[i - 1] not in '-=': depth += 1
+                    elif c == '<':
+                        depth -= 1
+                        if depth == 0: start = i; break
+                    i -= 1
+                if start < 0: continue
+                selfty = t[start + 1:m.start()]
+                val = assoc_type(vm, selfty.strip(), tr, name)
+                if val is not None:
+                    t = t[:start] + val + t[m.end():]; changed = True; break
+        if not changed:
+            # shorthand  Type::Assoc  /  Type<..>::Assoc
+            for m in re.finditer(r'::(' + '|'.join(map(re.escape, names)) + r')\b(?!::<|\()', t):
+                end = m.start()
+                # scan back over one type (identifier with optional generic args)
+                i = end - 1
+                if i < 0: continue
+                if t[i] == '>':
+                    depth = 0
+                    while i >= 0:
+                        if t[i] == '>' and t[i - 1] not in '-=': depth += 1
+                        elif t[i] == '<':
+                            depth -= 1
+                            if depth == 0: break
+                        i -= 1
+                    i -= 1
+                while i >= 0 and (t[i].isalnum() or t[i] == '_'): i -= 1
+                selfty = t[i + 1:end]
+                if not selfty or not selfty[0].isupper(): continue
+                val = None
+                for tr in names[m.group(1)]:
+                    val = assoc_type(vm, selfty, tr, m.group(1))
+                    if val is not None: break
+                if val is not None:
+                    t = t[:i + 1] + val + t[m.end():]; changed = True; break
         if not changed: break
     return t
 
